@@ -1,0 +1,135 @@
+//go:build verif && (darwin || freebsd || linux || openbsd)
+
+package dhcpd
+
+import (
+	"math/big"
+	"net"
+	"net/netip"
+	"slices"
+	"time"
+
+	"github.com/insomniacslk/dhcp/dhcpv4"
+)
+
+// This file is only compiled with the "verif" build tag.  It adds accessors
+// used by the external deterministic-simulation harness (engine E4 dhcpsim)
+// and changes nothing in the shipped build.
+
+// VerifLease is a deep copy of one entry of the in-memory DHCPv4 lease slice.
+type VerifLease struct {
+	Expiry   time.Time
+	IP       netip.Addr
+	Hostname string
+	HWAddr   net.HardwareAddr
+	IsStatic bool
+}
+
+// VerifV4Table is a deep copy of the DHCPv4 lease state: the raw lease slice
+// in slice order (including expired and merely offered entries, which
+// [server.Leases] hides), the two indexes and the pool bitset.
+type VerifV4Table struct {
+	Leases []VerifLease
+	// HostsIndex maps a hostname to the lease the hostname index points to.
+	HostsIndex map[string]VerifLease
+	// IPIndex maps an address to the lease the IP index points to.
+	IPIndex map[netip.Addr]VerifLease
+	// LeasedOffsets lists, ascending, the offsets from the range start whose
+	// bit is set in the pool bitset.
+	LeasedOffsets []uint64
+	// RangeLen is the number of addresses in the configured range.
+	RangeLen uint64
+}
+
+// verifV4 returns the DHCPv4 server of s or nil if it isn't configured.
+func (s *server) verifV4() (s4 *v4Server) {
+	s4, _ = s.srv4.(*v4Server)
+	if s4 == nil || s4.conf == nil {
+		return nil
+	}
+
+	return s4
+}
+
+// VerifV4ConfigureDNSIPAddrs does what [v4Server.Start] does between probing
+// the network interface and opening the sockets: it tells the DHCPv4 server
+// its own addresses (the first one is the server identifier).
+func (s *server) VerifV4ConfigureDNSIPAddrs(ips []net.IP) (ok bool) {
+	s4 := s.verifV4()
+	if s4 == nil {
+		return false
+	}
+
+	s4.configureDNSIPAddrs(ips)
+
+	return true
+}
+
+// VerifV4HandlePacket feeds one DHCPv4 message into the real packet handler,
+// exactly as the server4 listener does; the reply, if any, is written to conn.
+func (s *server) VerifV4HandlePacket(conn net.PacketConn, peer net.Addr, req *dhcpv4.DHCPv4) (ok bool) {
+	s4 := s.verifV4()
+	if s4 == nil {
+		return false
+	}
+
+	s4.packetHandler(conn, peer, req)
+
+	return true
+}
+
+func verifCloneLease(l *VerifLease, expiry time.Time, ip netip.Addr, host string, mac net.HardwareAddr, static bool) {
+	*l = VerifLease{Expiry: expiry, IP: ip, Hostname: host, HWAddr: slices.Clone(mac), IsStatic: static}
+}
+
+// VerifV4Table returns a deep copy of the DHCPv4 lease state.
+func (s *server) VerifV4Table() (t *VerifV4Table) {
+	s4 := s.verifV4()
+	if s4 == nil {
+		return nil
+	}
+
+	s4.leasesLock.Lock()
+	defer s4.leasesLock.Unlock()
+
+	t = &VerifV4Table{
+		Leases:     make([]VerifLease, len(s4.leases)),
+		HostsIndex: make(map[string]VerifLease, len(s4.hostsIndex)),
+		IPIndex:    make(map[netip.Addr]VerifLease, len(s4.ipIndex)),
+	}
+	for i, l := range s4.leases {
+		verifCloneLease(&t.Leases[i], l.Expiry, l.IP, l.Hostname, l.HWAddr, l.IsStatic)
+	}
+	for h, l := range s4.hostsIndex {
+		var c VerifLease
+		verifCloneLease(&c, l.Expiry, l.IP, l.Hostname, l.HWAddr, l.IsStatic)
+		t.HostsIndex[h] = c
+	}
+	for ip, l := range s4.ipIndex {
+		var c VerifLease
+		verifCloneLease(&c, l.Expiry, l.IP, l.Hostname, l.HWAddr, l.IsStatic)
+		t.IPIndex[ip] = c
+	}
+
+	if r := s4.conf.ipRange; r != nil {
+		n := (&big.Int{}).Sub(r.end, r.start)
+		t.RangeLen = n.Uint64() + 1
+		for off := uint64(0); off < t.RangeLen; off++ {
+			if s4.leasedOffsets.isSet(off) {
+				t.LeasedOffsets = append(t.LeasedOffsets, off)
+			}
+		}
+	}
+
+	return t
+}
+
+// VerifDBStore runs the real lease-database store.
+func (s *server) VerifDBStore() (err error) {
+	return s.dbStore()
+}
+
+// VerifDBPath returns the path of the lease database.
+func (s *server) VerifDBPath() (path string) {
+	return s.conf.dbFilePath
+}
